@@ -341,7 +341,7 @@ theorem kmpec_complete_within_caps_proof (inp : WalkInput) (walk : Nat → List 
   refine ⟨hsat, ?_, fun i => ⟨kmpecAsg_weights inp _ w sl _ _ i, hsl i⟩, ?_⟩
   · intro i e
     unfold multOf kmpecWalkAsg
-    rw [kmpecAsg_edge, floor_toNat_natCast]
+    rw [kmpecAsg_edge, pyRoundCount_natCast]
     rfl
   · rw [kmpecLP_obj]
     unfold totalSlack
